@@ -2,6 +2,7 @@ package crashfs_test
 
 import (
 	"errors"
+	"fmt"
 	"io/fs"
 	"os"
 	"path/filepath"
@@ -189,6 +190,53 @@ func TestFault(t *testing.T) {
 	c.Begin()
 	if c.Failed() != "" {
 		t.Fatal("Begin does not clear the fault")
+	}
+}
+
+// The File wrapper: creation and every write are steps (crash and fault
+// points), the result is on the real disk, EEXIST for O_EXCL is the real error.
+func TestFileSteps(t *testing.T) {
+	c, root := setup(t)
+	var labels []string
+	c.Observe = func(ev ctl.Event) { labels = append(labels, ev.Label) }
+	p := filepath.Join(root, "lock")
+	c.Begin()
+	f, err := crashfs.OpenFile(p, crashfs.O_CREATE|crashfs.O_EXCL|crashfs.O_WRONLY, 0o600)
+	if err != nil {
+		t.Fatal(err)
+	}
+	fmt.Fprintf(f, "%d\n", 42)
+	if err := f.Close(); err != nil {
+		t.Fatal(err)
+	}
+	if _, err := crashfs.OpenFile(p, crashfs.O_CREATE|crashfs.O_EXCL|crashfs.O_WRONLY, 0o600); !crashfs.IsExist(err) {
+		t.Fatalf("second O_EXCL create: %v", err)
+	}
+	if g, err := crashfs.Open(p); err != nil { // read-only: not a step
+		t.Fatal(err)
+	} else {
+		g.Close()
+	}
+	if err := crashfs.Remove(p); err != nil {
+		t.Fatal(err)
+	}
+	want := []string{"OpenFile", "File.Write", "OpenFile", "Remove"}
+	if !reflect.DeepEqual(labels, want) {
+		t.Fatalf("steps %v, want %v", labels, want)
+	}
+	// dying between the creation and the write leaves the empty file
+	c.Begin()
+	c.Arm(1, false)
+	cr := crashOf(func() {
+		f, _ := crashfs.OpenFile(p, crashfs.O_CREATE|crashfs.O_EXCL|crashfs.O_WRONLY, 0o600)
+		defer f.Close()
+		f.WriteString("x")
+	})
+	if cr == nil || cr.Label != "File.Write" {
+		t.Fatalf("crash: %v", cr)
+	}
+	if d, ok, _ := rawfs.ReadRegular(p); !ok || d != "" {
+		t.Fatalf("after the crash: %q %v", d, ok)
 	}
 }
 
